@@ -18,6 +18,7 @@ import CaddyModel.C11.Lemmas
 import CaddyModel.C11.Witness
 import CaddyModel.C11.CaddyfileProps
 import CaddyModel.C11.NamesProps
+import CaddyModel.Gen.Glue
 
 namespace CaddyModel.C11
 
@@ -525,6 +526,36 @@ theorem deterministic (c : Config) (P : Params) (κ ρ ρ' : Orders) (h : Comple
   · rw [certsOf_over c P κ ρ h, certsOf_over c P κ ρ' h]
   · rw [policiesOf_over c P κ ρ h, policiesOf_over c P κ ρ' h]
   · rw [serversOf_over c P κ ρ h, serversOf_over c P κ ρ' h]
+
+/-- the map-typed variables of `automaticHTTPSPhase1` (autohttps.go) -/
+def phase1Maps : List String :=
+  ["app.Servers", "serverDomainSet", "uniqueDomainsForCerts", "redirDomains", "domainsByAddr", "redirServers",
+   "redirServerAddrs"]
+
+/-- the maps whose iteration order the model exposes as an `Orders` field and that the function
+    ranges over -/
+def orderedMaps : List String := ["uniqueDomainsForCerts", "redirDomains", "domainsByAddr", "redirServers"]
+
+/-- what `deterministic` assumes about the source, as a predicate over the regenerated list of
+    `range` statements (robust against added loops over slices): no map of the function is
+    ranged directly except `serverDomainSet` (whose order the model does not expose: set
+    inserts and per-key appends only), and each ordered map is ranged through
+    `slices.Sorted(maps.Keys(m))` -/
+def sortedRangesOK (ranges : List (String × String)) : Bool :=
+  (ranges.all fun r => !(r.1 == "plain" && phase1Maps.contains r.2) || r.2 == "serverDomainSet") &&
+  (orderedMaps.all fun m => ranges.contains ("sortedkeys", m)) &&
+  (ranges.all fun r => r.1 == "plain" || r.1 == "sortedkeys")
+
+/-- **the source ranges over sorted keys** (regenerated from /repo on every run by
+    tools/extract: `Gen.autoHTTPSRanges`): the premise under which `Orders.over` with a complete
+    `κ` — and therefore `deterministic` — is the model of the code.  Reverting the repair
+    "automatic HTTPS phase 1 iterates its maps in sorted key order" breaks this theorem. -/
+theorem sorted_ranges_matches_source : sortedRangesOK Gen.autoHTTPSRanges = true := by decide
+
+/-- the predicate rejects the ranges of the code before the repair -/
+example : sortedRangesOK [("plain", "app.Servers"), ("plain", "serverDomainSet"), ("plain", "uniqueDomainsForCerts"),
+    ("plain", "redirDomains"), ("plain", "domainsByAddr"), ("plain", "redirServers"), ("plain", "app.Servers")] = false := by
+  decide
 
 example : Complete cfgShadow κShadow := κShadow_complete
 
